@@ -238,7 +238,9 @@ func (p *parser) continuation(node Node, prec int) (Node, error) {
 				return nil, err
 			}
 
-			right, err := p.projection(newPrec)
+			// Like every other projection, a filter takes the selectors that
+			// follow it, another filter included, as its right-hand side.
+			right, err := p.projection(projectionPrecedence)
 			if err != nil {
 				return nil, err
 			}
@@ -1741,7 +1743,7 @@ func (p *parser) primaryExpression() (Node, error) {
 			return nil, err
 		}
 
-		child, err := p.projection(precedence(lexer.FilterToken))
+		child, err := p.projection(projectionPrecedence)
 		if err != nil {
 			return nil, err
 		}
